@@ -41,7 +41,7 @@ def run(rep, tier):
     rep.extra["negative_models_refuted"] = 2
     behs = r.printed.get("BEH", [])
     ops = set(e["op"] for b in behs for e in b)
-    need = {"RustMake", "ForeignNull", "Export", "Import", "ReadView", "WriteView", "DropOwned", "EndBorrow"}
+    need = {"RustMake", "ForeignNull", "ForeignMake", "ForeignAlloc", "ForeignFree", "Export", "Import", "ReadView", "WriteView", "DropOwned", "EndBorrow"}
     if not need <= ops:
         raise lib.ToolError("SliceView behaviours never exercise %s" % (need - ops))
     inp = os.path.join(wd, "views.ndjson")
@@ -59,7 +59,7 @@ def run(rep, tier):
         for m in lib.read_ndjson(outv):
             rep.violation({"leg": "views", "op": m.get("op"), "what": m["what"], "elem": m.get("elem")}, m)
     for b in behs:
-        if any(e["op"] == "ForeignNull" or (e["op"] == "RustMake" and (e["n"] == 0 or "sub" in e)) for e in b):
+        if any(e["op"] in ("ForeignNull", "ForeignMake") or (e["op"] in ("RustMake", "ForeignAlloc") and (e["n"] == 0 or "sub" in e)) for e in b):
             rep.nontriv(b)
     rep.sample({"view_behaviour": behs[len(behs) // 2]})
     rep.extra["utf8_valid_strings_checked"] = rep.extra.get("utf8", {}).get("valid_exhaustive", 0)
